@@ -580,11 +580,22 @@ def handlePooledCall (ws : List String) : Option String := do
   order of the servers for the key (`Failover.prefRoute`; `-` = no preference: the first node in rotation);
 * a `get_many` / `gets_many` `<call>` is `op=hget_many gets=<0|1> t=<now> keys=<rk>~<key>|<rk>~<key>|… (or `-`)
   [s<i>.cf=x<code>] [s<i>.sf=x<code>] s<i>.ev=… …`: every key with its routing key, and per server `i` the script of its
-  connection during the call.
+  connection during the call;
+* a `set_many` `<call>` is `op=hset_many t=<now> items=<rk>~<key>~<value>|… (or `-`) e=<expire: i:<int>|x> nr=<n|0|1>
+  fl=<n|int> [s<i>.cf=x<code>] [s<i>.sf=x<code>] s<i>.ev=… …`: every item with its routing key (keys and values as for
+  `op=set_many` of the `call` command), the arguments handed through to the inner `set_many`, and per server `i` the
+  script of its connection during the call (whatever batch is sent to it); the result token is
+  `keys:[<failed key>;…]`, in the order in which `HashClient.set_many` builds the list;
+* a `delete_many` `<call>` is `op=hdelete_many t=<now> nr=<n|0|1> keys=<rk>~<key>|… (or `-`) [k<j>.cf=x<code>]
+  [k<j>.sf=x<code>] k<j>.ev=… …`: `k<j>.` prefixes the script of the connection contacted for key number `j` (from 0) —
+  `delete_many` is a loop of single-key `delete`s, the same server may be contacted several times; `srv=` / `client=` /
+  `cons=` list one entry per `_run_cmd` that reached `_safely_run_func`.
 
 Examples:
 `hashcall cfg=0000: fo=0,1,5 n=2 t0=0 rk=0,1 t=0 op=get k=b:6b cf=x61 | rk=0,1 t=1 op=get k=b:6b ev=d:454e440d0a`
 `hashcall cfg=0000: fo=1,1,5 n=2 t0=0 op=hget_many gets=0 t=0 keys=0,1~b:6b|1,0~b:7a s0.ev=d:454e440d0a s1.cf=x61`
+`hashcall cfg=0001: fo=1,1,5 n=2 t0=0 op=hset_many t=0 items=0,1~b:6b~b:76|1,0~b:7a~b:77 e=i:0 nr=0 fl=n s0.cf=x61 s1.ev=d:53544f5245440d0a`
+`hashcall cfg=0000: fo=1,1,5 n=2 t0=0 op=hdelete_many t=0 nr=0 keys=0,1~b:6b|0,1~b:7a k0.ev=d:44454c455445440d0a k1.ev=d:4e4f545f464f554e440d0a`
 
 Reply: `ok <obs> | <obs> | …` with one `<obs>` per call:
 `res=<result token|exc:…> srv=<servers handed to _safely_run_func, `+`-separated|-> client=<client object invoked per such
@@ -616,6 +627,33 @@ def handleHashCall (ws : List String) : Option String := do
         (parseScript ((seg.filter (·.startsWith pre)).map fun w => (w.drop pre.length).toString)).map fun sc => (i, sc)
       let lookup : Nat → Exchange.Script := fun s => ((scripts.find? (·.1 = s)).map (·.2)).getD {}
       pure (({ op := .getMany gets keys lookup, now := now } : HashCall.MCall (List Nat)), HashCall.defaultRes .version)
+    else if (arg seg "op") = some "hset_many" then
+      let istr ← arg seg "items"
+      let items ← if istr = "-" then some [] else (istr.splitOn "|").mapM fun it =>
+        (match it.splitOn "~" with
+        | [r, k, v] => do pure ((← natList r), (← parseKey k), (← parseVal v))
+        | _ => none)
+      let fl ← arg seg "fl"
+      let flags ← if fl = "n" then some none else fl.toInt?.map some
+      let e ← parseIntArg (← arg seg "e")
+      let nr ← parseOptBool (← arg seg "nr")
+      let scripts ← (List.range n).mapM fun i =>
+        let pre := s!"s{i}."
+        (parseScript ((seg.filter (·.startsWith pre)).map fun w => (w.drop pre.length).toString)).map fun sc => (i, sc)
+      let lookup : Nat → Exchange.Script := fun s => ((scripts.find? (·.1 = s)).map (·.2)).getD {}
+      pure (({ op := .setMany items e nr flags (fun s _ => lookup s), now := now } : HashCall.MCall (List Nat)),
+        HashCall.defaultRes .version)
+    else if (arg seg "op") = some "hdelete_many" then
+      let kstr ← arg seg "keys"
+      let keys ← if kstr = "-" then some [] else (kstr.splitOn "|").mapM fun it =>
+        (match it.splitOn "~" with
+        | [r, k] => do pure ((← natList r), (← parseKey k))
+        | _ => none)
+      let nr ← parseOptBool (← arg seg "nr")
+      let keys ← (keys.zipIdx).mapM fun ((r, k), j) =>
+        let pre := s!"k{j}."
+        (parseScript ((seg.filter (·.startsWith pre)).map fun w => (w.drop pre.length).toString)).map fun sc => (r, k, sc)
+      pure (({ op := .deleteMany keys nr, now := now } : HashCall.MCall (List Nat)), HashCall.defaultRes .version)
     else
       let c ← parseCall seg
       let sc ← parseScript seg
